@@ -3,6 +3,9 @@
 R-OWN       in every try_deallocate_*: state changes only on paths that passed an ownership test on the same pointer;
             `true` is returned only on such paths, the failing branch returns false without touching anything; members
             with nothing to release return exactly the test.
+R-OWN.scope the ownership test looks at all memory the allocator hands out: it is asked of a field of the allocator (the arena, the
+            single block), not of a part obtained through a call (current block); memory_arena::owns is the used-block stack's test
+            and that test walks the whole chain of blocks.
 R-OWN-IVL   ownership tests are half-open intervals [base, base + size).
 R-FWD       fallback_allocator / binary_segregator: default first, fallback second, same shape on the release side
             (nested compositions to depth 3 are instantiated).
@@ -68,9 +71,15 @@ def check_own(run, db, fns=None, rule='R-OWN'):
             continue
         problems = []
         tests_seen = 0
+        scope_bad = set()
         for s in S:
             if s.end != 'return':
                 continue
+            for c in [c for c, tk in s.conds] + ([s.ret] if s.ret else []):
+                if _is_own_test(c):
+                    recv = re.sub(r'\.(owns|contains)\(\$ptr\)\)*$', '', c).lstrip('(')
+                    if not re.match(r'^(\$state|this|\$\w+)(\.[A-Za-z_]\w*)*$', recv):
+                        scope_bad.add(c)
             own_true = any(_is_own_test(c) and tk for c, tk in s.conds)
             own_false = any(_is_own_test(c) and not tk for c, tk in s.conds)
             tests_seen += own_true or own_false
@@ -101,6 +110,13 @@ def check_own(run, db, fns=None, rule='R-OWN'):
             problems.append('no ownership test (owns/contains on the pointer) on any path')
         inst = '%s [%s]' % (f.display, db.config)
         n += 1
+        if scope_bad and rule == 'R-OWN':
+            inner = cls_template(f.cls[f.cls.index('<') + 1:]) if cls_template(f.cls) == 'composable_allocator_traits' else cls_template(f.cls)
+            run.violation('R-OWN.scope', inst, f.loc, 'the ownership test `%s` is asked of a part of the allocator\'s memory obtained through a call, not of the '
+                          'allocator\'s arena / block itself: memory handed out from another block is not recognised' % sorted(scope_bad)[0][:90],
+                          site={'function': '%s::%s' % (inner, f.short), 'role': 'ownership test covers all blocks'})
+        elif rule == 'R-OWN' and tests_seen:
+            run.ok('R-OWN.scope', inst, f.loc, 'ownership asked of a field of the allocator')
         if problems:
             run.violation(rule, inst, f.loc, '; '.join(sorted(set(problems))[:3]),
                           site={'function': '%s::%s' % (cls_template(f.cls), f.short), 'role': 'ownership test precedes release'})
@@ -159,6 +175,32 @@ def check_intervals(run, db):
     return n
 
 
+def check_scope_chain(run, db):
+    """memory_arena::owns returns the used-block stack's test; memory_block_stack::owns walks the chain (loop advancing over prev)"""
+    n = 0
+    for f in db.find(cls_t='memory_arena', short='owns'):
+        n += 1
+        S = [s for s in fwd.summarize(f, roles={0: 'ptr'}) if s.end == 'return']
+        inst = '%s [%s]' % (f.display, db.config)
+        if len(S) == 1 and S[0].ret == 'this.used_.owns($ptr)':
+            run.ok('R-OWN.scope', inst, f.loc, 'owns(ptr) == used_.owns(ptr)')
+        else:
+            run.violation('R-OWN.scope', inst, f.loc, 'memory_arena::owns is %s, not the used-block stack\'s test' % sorted(set(str(s.ret) for s in S))[:2],
+                          site={'function': 'memory_arena::owns', 'role': 'all used blocks'})
+    for f in db.find(cls_t='detail::memory_block_stack', short='owns'):
+        n += 1
+        inst = '%s [%s]' % (f.display, db.config)
+        dom = f.dominators()
+        back = [(b, su) for b, blk in f.blocks.items() for su in blk.get('succ', []) if su is not None and su in dom.get(b, ())]
+        adv = [e for e in f.events() if e['ev'] == 'assign' and 'prev' in tstr(e['rhs'])]
+        if back and adv:
+            run.ok('R-OWN.scope', inst, f.loc, 'loop over the chain of blocks (advances over prev)')
+        else:
+            run.violation('R-OWN.scope', inst, f.loc, 'the test does not walk the chain of blocks (no loop advancing over prev): only %s' %
+                          ('the head block is examined' if not back else 'one block is examined'), site={'function': 'memory_block_stack::owns', 'role': 'all used blocks'})
+    return n
+
+
 def check_fallback(run, db):
     n = 0
     for ct in ('fallback_allocator', 'binary_segregator'):
@@ -203,6 +245,7 @@ def check_fallback(run, db):
 
 def run(run):
     run.rule('R-OWN', 'state changes in try_deallocate_* only after a positive ownership test on the same pointer; false branch returns false untouched', floor=20)
+    run.rule('R-OWN.scope', 'the ownership test covers every block the allocator hands memory out from', floor=20)
     run.rule('R-OWN-IVL', 'ownership tests are half-open intervals', floor=2)
     run.rule('R-FWD', 'fallback/segregator: default first, fallback second, acquire/release siblings agree (nesting depth 3)', floor=40)
     run.rule('W-iface', 'composable interface completeness (compile-time)', floor=1)
@@ -222,6 +265,8 @@ def run(run):
             run.broke('try_deallocate members not found [%s]' % cfg)
         if check_intervals(run, db) < 2:
             run.broke('ownership interval functions not found [%s]' % cfg)
+        if check_scope_chain(run, db) < 2:
+            run.broke('memory_arena::owns / memory_block_stack::owns not found [%s]' % cfg)
         if check_fallback(run, db) < 20:
             run.broke('fallback/segregator members not instantiated [%s]' % cfg)
     fixtures.expect_fire(run, 'c08_bad.cpp', _fixture, 'R-OWN')
